@@ -115,6 +115,10 @@ SetOps == {OpRec("set", u, NoEntry, "gm", g, "", FALSE, <<>>, <<>>, <<>>) : u \i
           \cup {OpRec("set", u, NoEntry, "order", x, "", FALSE, <<>>, <<>>, <<>>) : u \in Ids, x \in {0, 9}}
           \cup {OpRec("set", u, NoEntry, "disp", 0, s, FALSE, <<>>, <<>>, <<>>) : u \in Ids, s \in {"", "z"}}
           \cup {OpRec("set", u, NoEntry, "listed", 0, "", b, <<>>, <<>>, <<>>) : u \in Ids, b \in BOOLEAN}
+\* one Add call with several entries, also the same id twice (with and without a change of profile)
+AddManyLists == {<<Tpl(1, 1), Tpl(2, 3)>>, <<Tpl(1, 0), Tpl(1, 3)>>, <<Tpl(1, 3), Tpl(1, 1)>>,
+                 <<Tpl(2, 1), Tpl(2, 4)>>, <<Tpl(1, 3), Tpl(2, 0), Tpl(1, 4)>>}
+AddManyOps == {OpRec("addmany", 0, NoEntry, "", 0, "", FALSE, <<>>, <<>>, es) : es \in AddManyLists}
 IdLists == {<<>>, <<1>>, <<2>>, <<1, 2>>}
 RemoveOps == {OpRec("removeAll", 0, NoEntry, "", 0, "", FALSE, l, <<>>, <<>>) : l \in IdLists}
 BRemoveOps == {OpRec("bremove", 0, NoEntry, "", 0, "", FALSE, l, <<>>, <<>>) : l \in IdLists \ {<<>>}}
@@ -127,7 +131,7 @@ EntryLists == {<<Tpl(1, 1)>>, <<Tpl(1, 3)>>, <<Tpl(1, 4)>>, <<Tpl(2, 0)>>, <<Tpl
                <<Tpl(1, 1), Tpl(2, 3)>>, <<Tpl(2, 4), Tpl(1, 2)>>, <<Tpl(1, 1), Tpl(1, 4)>>}
 BUpsertOps(v) == {OpRec("bupsert", 0, NoEntry, "", 0, "", FALSE, <<>>, VerActs(v, a), es) :
                     a \in ActionSets, es \in EntryLists}
-Ops(v) == AddOps \cup SetOps \cup RemoveOps \cup BRemoveOps \cup BUpsertOps(v)
+Ops(v) == AddOps \cup AddManyOps \cup SetOps \cup RemoveOps \cup BRemoveOps \cup BUpsertOps(v)
 
 Upsert(acts, es) == [k |-> "upsert", actions |-> acts, entries |-> es, ids |-> <<>>]
 Remove(ids) == [k |-> "remove", actions |-> <<>>, entries |-> <<>>, ids |-> ids]
@@ -155,6 +159,14 @@ Apply(op) ==
     CASE op.op = "add" ->
             /\ pv' = [pv EXCEPT ![op.id] = AsInfo(op.e)]
             /\ cv' = ClientApplyAll(cv, AddPkts(ver, pv[op.id], op.e))
+      [] op.op = "addmany" ->          \* Add(e1, e2, ..) = the entries added one after the other
+            LET RECURSIVE F(_, _, _)
+                F(p, c, es) == IF es = <<>> THEN <<p, c>>
+                               ELSE LET e == Head(es) IN
+                                    F([p EXCEPT ![e.id] = AsInfo(e)],
+                                      ClientApplyAll(c, AddPkts(ver, p[e.id], e)), Tail(es))
+                r == F(pv, cv, op.entries)
+            IN pv' = r[1] /\ cv' = r[2]
       [] op.op = "set" ->
             /\ pv[op.id].present          \* the API object comes from Entries()
             /\ LET e == [NoEntry EXCEPT !.id = op.id, !.gm = op.ival, !.lat = op.ival, !.order = op.ival,
